@@ -143,6 +143,17 @@ func (b *bess) SendMsgToUPF(
 		return cause
 	}
 
+	if method != upfMsgTypeDel {
+		// A PDR whose port ranges cannot be expressed as match entries would be
+		// skipped by addPDR: reject the request instead of accepting it without the rule.
+		for _, pdr := range pdrs {
+			if _, err := CreatePortRangeCartesianProduct(pdr.appFilter.srcPortRange, pdr.appFilter.dstPortRange); err != nil {
+				logger.BessLog.Errorln("PDR cannot be installed:", err)
+				return ie.CauseRequestRejected
+			}
+		}
+	}
+
 	ctx, cancel := context.WithTimeout(context.Background(), Timeout)
 	defer cancel()
 
